@@ -29,7 +29,11 @@ static std::string blanks(Rng& rng) {
     static const char* b[] = {" ", "  ", "\t", " \t ", "    ", "\t\t"};
     return b[rng.below(6)];
 }
+// The parser cleans a file with a second routine as soon as the text mentions a keyword holding code (PYINPUT, DYNAMICR), in a
+// comment too; a quarter of the cases write such comments so that both routines meet every layout.
+static bool g_codeWordComments = false;
 static std::string comment(Rng& rng) {
+    if (g_codeWordComments && rng.chance(0.3)) return rng.chance(0.5) ? "-- this case has no PYINPUT section" : "-- DYNAMICR is not used";
     static const char* c[] = {"-- plain comment", "--", "-- it's a / comment", "--'unbalanced", "-- 1* 2*3 / /", "-- \"dq\" 'sq' / --", "---- dashes", "-- INCLUDE 'x' /", "-- PORO", "-- 3.5\" tubing", "--\""};
     return c[rng.below(11)];
 }
@@ -198,6 +202,8 @@ static int run_gen(const vh::Args& args, vh::Reporter& rep, Env& env) {
     rep.count("catalog_keywords", args.shard == 0 ? ncat : 0);
     rep.run_cases([&](long idx, Rng& rng) {
         DeckT deck;
+        g_codeWordComments = rng.chance(0.25);
+        if (g_codeWordComments) rep.count("cases_with_code_keyword_names_in_comments");
         bool multi = idx >= ncat * sweep;
         if (!multi) {
             Kw k; std::vector<Kw> prelude;
@@ -310,6 +316,8 @@ static int run_shipped(const vh::Args& args, vh::Reporter& rep, Env& env) {
         const std::string& path = decks[idx % decks.size()];
         std::string text = vh::read_file(path);
         if (text.find("PYINPUT") != std::string::npos || text.find("PYACTION") != std::string::npos) { rep.count("skipped_python_deck"); return; }
+        g_codeWordComments = rng.chance(0.25);
+        if (g_codeWordComments) rep.count("cases_with_code_keyword_names_in_comments");
         ParseContext pc; pc.update(InputErrorAction::IGNORE);
         std::string d1;
         std::vector<std::pair<size_t, std::string>> kwlines;   // line numbers where keywords start
